@@ -1,6 +1,6 @@
 (** Executable models instantiated with the data of this run (for extraction). *)
-From RV Require Import Model.Base Model.Spirv Model.Decoder Model.Module Model.Inst Model.Parser Model.Loader.
-From RV Require Import Gen.SpirvData Gen.TraverseData Gen.ReflectData Gen.LoaderData Inst.Linked.
+From RV Require Import Model.Base Model.Spirv Model.Decoder Model.Module Model.Inst Model.Parser Model.Loader Model.Builder.
+From RV Require Import Gen.SpirvData Gen.TraverseData Gen.ReflectData Gen.LoaderData Gen.BuilderData Inst.Linked.
 
 Definition c11_run_case := c11_run enums flags.
 Definition c15_eval_case := c15_eval defs.
@@ -17,3 +17,7 @@ Definition assemble_module (h : option header) (m : module inst) : list N :=
 
 Definition feed_case_prefix (is : list inst) : bool :=
   match feed op_enum preds loader_arms linit is with LCont _ => true | _ => false end.
+
+Definition k_function_control : N := Eval vm_compute in kidx "FunctionControl".
+Definition bld_step := bstep k_function_control descriptors.
+Definition bld_find := find_desc descriptors.
